@@ -289,9 +289,9 @@ pub fn e2e_scenario(hist: &[Rec]) -> crate::e2e::Scenario {
         .map(frame_of)
         .filter(|f| seen.insert(f.clone()))
         .enumerate()
-        .map(|(i, frame)| crate::e2e::Send { source: 0, frame, pause_ms: [0u32, 1, 3, 0, 12][i % 5], cut: if i % 5 == 2 { 7 + i % 9 } else { 0 } })
+        .map(|(i, frame)| crate::e2e::Send { source: 0, frame, pause_ms: [0u32, 1, 3, 0, 12][i % 5], cut: if i % 5 == 2 { 7 + i % 9 } else { 0 }, clock_offset_s: None })
         .collect();
-    crate::e2e::Scenario { references: vec![Some((43.6, 1.45))], sends, df_filter: None, aircraft_filter: None, dedup_ms: 40, update_position: false, with_file: false, via_config: false, split: 0, long_table: false, track: vec![] }
+    crate::e2e::Scenario { references: vec![Some((43.6, 1.45))], sends, df_filter: None, aircraft_filter: None, dedup_ms: 40, update_position: false, with_file: false, via_config: false, split: 0, long_table: false, history_expire: None, track: vec![] }
 }
 
 pub fn judge_e2e(ctx: &Ctx, sc: &crate::e2e::Scenario, out: &crate::e2e::Outcome, window: (u64, u64), rep: &Value) -> Check {
